@@ -271,7 +271,7 @@ func (db *SingleBucketBackend) HeadObject(bucketName, objectName string) (*gofak
 	defer db.lock.Unlock()
 
 	stat, err := db.fs.Stat(filepath.FromSlash(objectName))
-	if os.IsNotExist(err) {
+	if notExist(err) {
 		return nil, gofakes3.KeyNotFound(objectName)
 	} else if err != nil {
 		return nil, err
@@ -306,7 +306,7 @@ func (db *SingleBucketBackend) GetObject(bucketName, objectName string, rangeReq
 	defer db.lock.Unlock()
 
 	f, err := db.fs.Open(filepath.FromSlash(objectName))
-	if os.IsNotExist(err) {
+	if notExist(err) {
 		return nil, gofakes3.KeyNotFound(objectName)
 	} else if err != nil {
 		return nil, err
@@ -499,7 +499,7 @@ func (db *SingleBucketBackend) deleteObjectLocked(bucketName, objectName string)
 
 	// S3 does not report an error when attemping to delete a key that does not exist, so
 	// we need to skip IsNotExist errors.
-	if err := db.fs.Remove(filepath.FromSlash(objectName)); err != nil && !os.IsNotExist(err) {
+	if err := db.fs.Remove(filepath.FromSlash(objectName)); err != nil && !notExist(err) {
 		return err
 	}
 	if err := db.metaStore.deleteMeta(db.metaStore.metaPath(bucketName, objectName)); err != nil {
